@@ -1,0 +1,560 @@
+//go:build verif
+
+package keyproof
+
+// Verification hooks for property C17, second part (build tag "verif"): a canonical text dump of
+// the WIRING of the composed key-correctness proof, i.e. of the structure values that
+// NewValidKeyProofStructure and the new*Structure constructors really build (every field is
+// read from the constructed value, nothing is recomputed here). The Lean model
+// (GabiModel/KeyProofTree.lean) prints the same text from its own constructors; the
+// correspondence op `kp-structure` compares the two. Add-only; compiled out without the tag.
+//
+// Format (S-expression, single spaces, no line breaks):
+//   INT      big integers in lower-case hex with optional leading '-', nil = "nil"
+//   REP      (rep (lhs (BASE INT)*) (rhs (BASE SECRET INT)*))
+//   PED      (ped NAME REP)
+//   RANGE    (range RANGESECRET L1 L2 REP)                    L1, L2 decimal
+//   MUL      (mul M1 M2 MOD RESULT MYNAME PED RANGE REP)
+//   ADD      (add A1 A2 MOD RESULT MYNAME REP RANGE)
+//   EXPA     (expa BITNAME PRENAME POSTNAME MYNAME REP REP)    bitRep, equalityRep
+//   EXPB     (expb BITNAME MULNAME MYNAME REP PED MUL)         bitRep, mul, prePostMul
+//   STEP     (step BITNAME EXPA EXPB)
+//   EXP      (exp BASE EXPONENT MOD RESULT MYNAME BITLEN (bits PED*) REP (basepows PED*)
+//             (basepowrange RANGE*) (basepowrels MUL*) PED REP (interress PED*)
+//             (interresrange RANGE*) (steps STEP*))
+//   PRIME    (prime PRIMENAME MYNAME BITLEN PED REP PED RANGE PED RANGE PED RANGE PED PED REP REP REP EXP EXP)
+//             halfP halfPRep prea preaRange a aRange aneg anegRange aRes anegRes
+//             aPlus1ResRep aMin1ResRep anegResRep aExp anegExp
+//   ISSQUARE (issquare INT PED (squares INT*) (squaresped PED*) REP (squaresrep REP*)
+//             (rootsrep PED*) (rootsrange RANGE*) (rootsvalid MUL*))
+//   VALIDKEY (validkey INT PED PED PED PED REP REP REP PRIME PRIME ISSQUARE)
+//             n p q pprime qprime pPprimeRel qQprimeRel pQNRel pprimeIsPrime qprimeIsPrime basesValid
+
+import (
+	"io"
+	"strconv"
+	"strings"
+
+	"github.com/privacybydesign/gabi/big"
+	"github.com/privacybydesign/gabi/zkproof"
+)
+
+type verifDumper struct {
+	w   io.Writer
+	buf []byte
+}
+
+func (d *verifDumper) s(x string) {
+	d.buf = append(d.buf, x...)
+	if len(d.buf) >= 1<<16 {
+		d.flush()
+	}
+}
+
+func (d *verifDumper) flush() {
+	if len(d.buf) > 0 {
+		_, _ = d.w.Write(d.buf)
+		d.buf = d.buf[:0]
+	}
+}
+
+func (d *verifDumper) int(x *big.Int) {
+	if x == nil {
+		d.s("nil")
+		return
+	}
+	d.s(x.Text(16))
+}
+
+func (d *verifDumper) uint(x uint) { d.s(strconv.FormatUint(uint64(x), 10)) }
+
+func (d *verifDumper) rep(r *zkproof.RepresentationProofStructure) {
+	d.s("(rep (lhs")
+	for i := range r.Lhs {
+		d.s(" (")
+		d.s(r.Lhs[i].Base)
+		d.s(" ")
+		d.int(r.Lhs[i].Power)
+		d.s(")")
+	}
+	d.s(") (rhs")
+	for i := range r.Rhs {
+		d.s(" (")
+		d.s(r.Rhs[i].Base)
+		d.s(" ")
+		d.s(r.Rhs[i].Secret)
+		d.s(" ")
+		d.s(strconv.FormatInt(r.Rhs[i].Power, 16))
+		d.s(")")
+	}
+	d.s("))")
+}
+
+func (d *verifDumper) ped(p *pedersenStructure) {
+	d.s("(ped ")
+	d.s(p.name)
+	d.s(" ")
+	d.rep(&p.representation)
+	d.s(")")
+}
+
+func (d *verifDumper) rng(r *rangeProofStructure) {
+	d.s("(range ")
+	d.s(r.rangeSecret)
+	d.s(" ")
+	d.uint(r.l1)
+	d.s(" ")
+	d.uint(r.l2)
+	d.s(" ")
+	d.rep(&r.RepresentationProofStructure)
+	d.s(")")
+}
+
+func (d *verifDumper) mul(m *multiplicationProofStructure) {
+	d.s("(mul ")
+	d.s(m.m1)
+	d.s(" ")
+	d.s(m.m2)
+	d.s(" ")
+	d.s(m.mod)
+	d.s(" ")
+	d.s(m.result)
+	d.s(" ")
+	d.s(m.myname)
+	d.s(" ")
+	d.ped(&m.modMultPedersen)
+	d.s(" ")
+	d.rng(&m.modMultRange)
+	d.s(" ")
+	d.rep(&m.multRepresentation)
+	d.s(")")
+}
+
+func (d *verifDumper) add(a *additionProofStructure) {
+	d.s("(add ")
+	d.s(a.a1)
+	d.s(" ")
+	d.s(a.a2)
+	d.s(" ")
+	d.s(a.mod)
+	d.s(" ")
+	d.s(a.result)
+	d.s(" ")
+	d.s(a.myname)
+	d.s(" ")
+	d.rep(&a.addRepresentation)
+	d.s(" ")
+	d.rng(&a.addRange)
+	d.s(")")
+}
+
+func (d *verifDumper) expa(a *expStepAStructure) {
+	d.s("(expa ")
+	d.s(a.bitname)
+	d.s(" ")
+	d.s(a.prename)
+	d.s(" ")
+	d.s(a.postname)
+	d.s(" ")
+	d.s(a.myname)
+	d.s(" ")
+	d.rep(&a.bitRep)
+	d.s(" ")
+	d.rep(&a.equalityRep)
+	d.s(")")
+}
+
+func (d *verifDumper) expb(b *expStepBStructure) {
+	d.s("(expb ")
+	d.s(b.bitname)
+	d.s(" ")
+	d.s(b.mulname)
+	d.s(" ")
+	d.s(b.myname)
+	d.s(" ")
+	d.rep(&b.bitRep)
+	d.s(" ")
+	d.ped(&b.mul)
+	d.s(" ")
+	d.mul(&b.prePostMul)
+	d.s(")")
+}
+
+func (d *verifDumper) step(s *expStepStructure) {
+	d.s("(step ")
+	d.s(s.bitname)
+	d.s(" ")
+	d.expa(&s.stepa)
+	d.s(" ")
+	d.expb(&s.stepb)
+	d.s(")")
+}
+
+func (d *verifDumper) peds(tag string, l []pedersenStructure) {
+	d.s("(")
+	d.s(tag)
+	for i := range l {
+		d.s(" ")
+		d.ped(&l[i])
+	}
+	d.s(")")
+}
+
+func (d *verifDumper) rngs(tag string, l []rangeProofStructure) {
+	d.s("(")
+	d.s(tag)
+	for i := range l {
+		d.s(" ")
+		d.rng(&l[i])
+	}
+	d.s(")")
+}
+
+func (d *verifDumper) muls(tag string, l []multiplicationProofStructure) {
+	d.s("(")
+	d.s(tag)
+	for i := range l {
+		d.s(" ")
+		d.mul(&l[i])
+	}
+	d.s(")")
+}
+
+func (d *verifDumper) exp(e *expProofStructure) {
+	d.s("(exp ")
+	d.s(e.base)
+	d.s(" ")
+	d.s(e.exponent)
+	d.s(" ")
+	d.s(e.mod)
+	d.s(" ")
+	d.s(e.result)
+	d.s(" ")
+	d.s(e.myname)
+	d.s(" ")
+	d.uint(e.bitlen)
+	d.s(" ")
+	d.peds("bits", e.expBits)
+	d.s(" ")
+	d.rep(&e.expBitEq)
+	d.s(" ")
+	d.peds("basepows", e.basePows)
+	d.s(" ")
+	d.rngs("basepowrange", e.basePowRange)
+	d.s(" ")
+	d.muls("basepowrels", e.basePowRels)
+	d.s(" ")
+	d.ped(&e.start)
+	d.s(" ")
+	d.rep(&e.startRep)
+	d.s(" ")
+	d.peds("interress", e.interRess)
+	d.s(" ")
+	d.rngs("interresrange", e.interResRange)
+	d.s(" (steps")
+	for i := range e.interSteps {
+		d.s(" ")
+		d.step(&e.interSteps[i])
+	}
+	d.s("))")
+}
+
+func (d *verifDumper) prime(p *primeProofStructure) {
+	d.s("(prime ")
+	d.s(p.primeName)
+	d.s(" ")
+	d.s(p.myname)
+	d.s(" ")
+	d.uint(p.bitlen)
+	d.s(" ")
+	d.ped(&p.halfP)
+	d.s(" ")
+	d.rep(&p.halfPRep)
+	d.s(" ")
+	d.ped(&p.prea)
+	d.s(" ")
+	d.rng(&p.preaRange)
+	d.s(" ")
+	d.ped(&p.a)
+	d.s(" ")
+	d.rng(&p.aRange)
+	d.s(" ")
+	d.ped(&p.aneg)
+	d.s(" ")
+	d.rng(&p.anegRange)
+	d.s(" ")
+	d.ped(&p.aRes)
+	d.s(" ")
+	d.ped(&p.anegRes)
+	d.s(" ")
+	d.rep(&p.aPlus1ResRep)
+	d.s(" ")
+	d.rep(&p.aMin1ResRep)
+	d.s(" ")
+	d.rep(&p.anegResRep)
+	d.s(" ")
+	d.exp(&p.aExp)
+	d.s(" ")
+	d.exp(&p.anegExp)
+	d.s(")")
+}
+
+func (d *verifDumper) isSquare(q *isSquareProofStructure) {
+	d.s("(issquare ")
+	d.int(q.n)
+	d.s(" ")
+	d.ped(&q.nPedersen)
+	d.s(" (squares")
+	for i := range q.squares {
+		d.s(" ")
+		d.int(q.squares[i])
+	}
+	d.s(") ")
+	d.peds("squaresped", q.squaresPedersen)
+	d.s(" ")
+	d.rep(&q.nRep)
+	d.s(" (squaresrep")
+	for i := range q.squaresRep {
+		d.s(" ")
+		d.rep(&q.squaresRep[i])
+	}
+	d.s(") ")
+	d.peds("rootsrep", q.rootsRep)
+	d.s(" ")
+	d.rngs("rootsrange", q.rootsRange)
+	d.s(" ")
+	d.muls("rootsvalid", q.rootsValid)
+	d.s(")")
+}
+
+// validKeyTop: the fields of the root that are not composed sub-trees (part "top").
+func (d *verifDumper) validKeyTop(s *ValidKeyProofStructure) {
+	d.s("(validkey ")
+	d.int(s.n)
+	d.s(" ")
+	d.ped(&s.p)
+	d.s(" ")
+	d.ped(&s.q)
+	d.s(" ")
+	d.ped(&s.pprime)
+	d.s(" ")
+	d.ped(&s.qprime)
+	d.s(" ")
+	d.rep(&s.pPprimeRel)
+	d.s(" ")
+	d.rep(&s.qQprimeRel)
+	d.s(" ")
+	d.rep(&s.pQNRel)
+}
+
+func (d *verifDumper) validKey(s *ValidKeyProofStructure) {
+	d.validKeyTop(s)
+	d.s(" ")
+	d.prime(&s.pprimeIsPrime)
+	d.s(" ")
+	d.prime(&s.qprimeIsPrime)
+	d.s(" ")
+	d.isSquare(&s.basesValid)
+	d.s(")")
+}
+
+func verifDumpString(f func(d *verifDumper)) string {
+	var sb strings.Builder
+	d := &verifDumper{w: &sb}
+	f(d)
+	d.flush()
+	return sb.String()
+}
+
+// VerifDumpTo writes the canonical description of this (already constructed) structure to w.
+func (s *ValidKeyProofStructure) VerifDumpTo(w io.Writer) {
+	d := &verifDumper{w: w}
+	d.validKey(s)
+	d.flush()
+}
+
+// VerifDumpPartTo writes one part of the description, so that a difference can be localised:
+// "top" = the text up to (excluding) the first composed sub-tree, i.e. "(validkey INT PED PED PED
+// PED REP REP REP"; "pprimeIsPrime", "qprimeIsPrime" = the PRIME texts; "basesValid" = the
+// ISSQUARE text. The full text is top + " " + pprimeIsPrime + " " + qprimeIsPrime + " " +
+// basesValid + ")".
+func (s *ValidKeyProofStructure) VerifDumpPartTo(w io.Writer, part string) bool {
+	d := &verifDumper{w: w}
+	switch part {
+	case "top":
+		d.validKeyTop(s)
+	case "pprimeIsPrime":
+		d.prime(&s.pprimeIsPrime)
+	case "qprimeIsPrime":
+		d.prime(&s.qprimeIsPrime)
+	case "basesValid":
+		d.isSquare(&s.basesValid)
+	default:
+		return false
+	}
+	d.flush()
+	return true
+}
+
+// VerifSubtreeCounts: numCommitments and numRangeProofs of the composed sub-trees, as the
+// package's own counting functions report them (order: pprimeIsPrime, qprimeIsPrime, basesValid),
+// and numRangeProofs of the root.
+func (s *ValidKeyProofStructure) VerifSubtreeCounts() (commitments [3]int, rangeProofs [3]int, total int) {
+	return [3]int{s.pprimeIsPrime.numCommitments(), s.qprimeIsPrime.numCommitments(), s.basesValid.numCommitments()},
+		[3]int{s.pprimeIsPrime.numRangeProofs(), s.qprimeIsPrime.numRangeProofs(), s.basesValid.numRangeProofs()},
+		s.numRangeProofs()
+}
+
+// VerifStructureDump: the canonical description of NewValidKeyProofStructure(N, Bases).
+func VerifStructureDump(N *big.Int, Bases []*big.Int) string {
+	s := NewValidKeyProofStructure(N, Bases)
+	return verifDumpString(func(d *verifDumper) { d.validKey(&s) })
+}
+
+// VerifStructureDumpTo streams the description of NewValidKeyProofStructure(N, Bases) to w
+// (the text has tens of megabytes at 2048 bits).
+func VerifStructureDumpTo(w io.Writer, N *big.Int, Bases []*big.Int) {
+	s := NewValidKeyProofStructure(N, Bases)
+	s.VerifDumpTo(w)
+}
+
+func VerifPrimeStructureDumpTo(w io.Writer, name string, bitlen uint) (numCommitments, numRangeProofs int) {
+	s := newPrimeProofStructure(name, bitlen)
+	d := &verifDumper{w: w}
+	d.prime(&s)
+	d.flush()
+	return s.numCommitments(), s.numRangeProofs()
+}
+
+// VerifPrimeStructureExpsTo: the two EXP sub-trees of newPrimeProofStructure(name, bitlen) alone.
+func VerifPrimeStructureExpsTo(wa, wneg io.Writer, name string, bitlen uint) {
+	s := newPrimeProofStructure(name, bitlen)
+	d := &verifDumper{w: wa}
+	d.exp(&s.aExp)
+	d.flush()
+	d = &verifDumper{w: wneg}
+	d.exp(&s.anegExp)
+	d.flush()
+}
+
+func VerifExpStructureDumpTo(w io.Writer, base, exponent, mod, result string, bitlen uint) (numCommitments, numRangeProofs int) {
+	s := newExpProofStructure(base, exponent, mod, result, bitlen)
+	d := &verifDumper{w: w}
+	d.exp(&s)
+	d.flush()
+	return s.numCommitments(), s.numRangeProofs()
+}
+
+func VerifIsSquareStructureDumpTo(w io.Writer, N *big.Int, Squares []*big.Int) (numCommitments, numRangeProofs int) {
+	s := newIsSquareProofStructure(N, Squares)
+	d := &verifDumper{w: w}
+	d.isSquare(&s)
+	d.flush()
+	return s.numCommitments(), s.numRangeProofs()
+}
+
+func VerifExpStepStructureDump(bitname, prename, postname, mulname, modname string, bitlen uint) (string, int, int) {
+	s := newExpStepStructure(bitname, prename, postname, mulname, modname, bitlen)
+	return verifDumpString(func(d *verifDumper) { d.step(&s) }), s.numCommitments(), s.numRangeProofs()
+}
+
+func VerifMultiplicationStructureDump(m1, m2, mod, result string, l uint) (string, int, int) {
+	s := newMultiplicationProofStructure(m1, m2, mod, result, l)
+	return verifDumpString(func(d *verifDumper) { d.mul(&s) }), s.numCommitments(), s.numRangeProofs()
+}
+
+func VerifAdditionStructureDump(a1, a2, mod, result string, l uint) (string, int, int) {
+	s := newAdditionProofStructure(a1, a2, mod, result, l)
+	return verifDumpString(func(d *verifDumper) { d.add(&s) }), s.numCommitments(), s.numRangeProofs()
+}
+
+func VerifPedersenStructureDump(name string) (string, int, int) {
+	s := newPedersenStructure(name)
+	return verifDumpString(func(d *verifDumper) { d.ped(&s) }), s.numCommitments(), s.numRangeProofs()
+}
+
+func VerifPedersenRangeStructureDump(name string, l1, l2 uint) (string, int, int) {
+	s := newPedersenRangeProofStructure(name, l1, l2)
+	return verifDumpString(func(d *verifDumper) { d.rng(&s) }), s.numCommitments(), s.numRangeProofs()
+}
+
+// ---- structures are values: nothing that uses them may change them -------------------------
+
+// VerifConvenientSafePrimes: the package's table of safe primes 2^exp - diff (admissible group
+// primes for moduli that are small enough).
+func VerifConvenientSafePrimes() []*big.Int {
+	out := make([]*big.Int, 0, len(convenientSafePrimes))
+	for _, cp := range convenientSafePrimes {
+		var ret, diff big.Int
+		diff.SetUint64(uint64(cp.Diff))
+		ret.SetUint64(1)
+		ret.Lsh(&ret, uint(cp.Exp))
+		ret.Sub(&ret, &diff)
+		out = append(out, &ret)
+	}
+	return out
+}
+
+// VerifGroupPrimeMinBits: the size VerifyProof demands of the group prime.
+func (s *ValidKeyProofStructure) VerifGroupPrimeMinBits() int {
+	return s.n.BitLen() + 2*rangeProofEpsilon + 10
+}
+
+// VerifExpEnv holds one instance of every BaseLookup implementation of the proof system whose Exp
+// receives caller-owned big.Ints: the group itself, a Pedersen commitment on the prover's side
+// (pedersenCommit), the same commitment on the verifier's side (PedersenProof), and BaseMerges
+// of them.
+type VerifExpEnv struct {
+	g      zkproof.Group
+	commit pedersenCommit
+	proof  PedersenProof
+}
+
+func VerifNewExpEnv(groupPrime *big.Int, name string, secretv, hiderv *big.Int) (*VerifExpEnv, bool) {
+	g, ok := zkproof.BuildGroup(groupPrime)
+	if !ok {
+		return nil, false
+	}
+	e := &VerifExpEnv{g: g}
+	e.commit = pedersenCommit{
+		name:    name,
+		secretv: secret{name, new(big.Int).Set(secretv), big.NewInt(0)},
+		hider:   secret{strings.Join([]string{name, "hider"}, "_"), new(big.Int).Set(hiderv), big.NewInt(0)},
+		commit:  new(big.Int),
+		g:       &e.g,
+	}
+	var gs, hr big.Int
+	e.g.Exp(&gs, "g", new(big.Int).Mod(secretv, e.g.Order), e.g.P)
+	e.g.Exp(&hr, "h", new(big.Int).Mod(hiderv, e.g.Order), e.g.P)
+	e.commit.commit.Mod(new(big.Int).Mul(&gs, &hr), e.g.P)
+	e.proof = PedersenProof{name: name, Commit: new(big.Int).Set(e.commit.commit)}
+	return e, true
+}
+
+func (e *VerifExpEnv) P() *big.Int      { return new(big.Int).Set(e.g.P) }
+func (e *VerifExpEnv) Order() *big.Int  { return new(big.Int).Set(e.g.Order) }
+func (e *VerifExpEnv) Commit() *big.Int { return new(big.Int).Set(e.commit.commit) }
+
+// Exp calls lookup.Exp(ret, name, exp, mod) with the caller's exp and mod, for the lookup named by
+// via: "group", "pedcommit", "pedproof", "merge-commit" (BaseMerge of pedersenCommit and group),
+// "merge-proof" (BaseMerge of PedersenProof and group).
+func (e *VerifExpEnv) Exp(via, name string, exp, mod *big.Int) (ret *big.Int, found bool) {
+	ret = new(big.Int)
+	switch via {
+	case "group":
+		found = e.g.Exp(ret, name, exp, mod)
+	case "pedcommit":
+		found = e.commit.Exp(ret, name, exp, mod)
+	case "pedproof":
+		found = e.proof.Exp(ret, name, exp, mod)
+	case "merge-commit":
+		m := zkproof.NewBaseMerge(&e.commit, &e.g)
+		found = m.Exp(ret, name, exp, mod)
+	case "merge-proof":
+		m := zkproof.NewBaseMerge(&e.proof, &e.g)
+		found = m.Exp(ret, name, exp, mod)
+	default:
+		panic("unknown lookup " + via)
+	}
+	return ret, found
+}
